@@ -1,5 +1,6 @@
 """C10 - mini-batches partition the data and stay aligned with the affinity matrix."""
 import ast
+import re
 
 from ..pm import AnalysisError, norm_src, func_params
 from ..flow import CFG, ENTRY, attr_chain
@@ -453,7 +454,7 @@ def run(pm, ctx):
         ctx.ok("C10-e", qn, "driven with arange(len(X)); ids recorded before yield; X[ids] and untouched affinity block")
     # the wrapper replaces _batchify of the instance and intercept_grads reads the recorded ids of that very wrapper
     asrc = [norm_src(s) for s in ast.walk(af) if isinstance(s, ast.stmt)]
-    if "gemini_model._batchify = decorate_batch(gemini_model._batchify)" in asrc and "last_indices = gemini_model._batchify.indices" in asrc:
+    if "gemini_model._batchify = decorate_batch(gemini_model._batchify)" in asrc and any(re.search(r"^\w+ = gemini_model\._batchify\.indices$", x) for x in asrc):
         ctx.ok("C10-e", "add_mlcl_constraint: _batchify replaced by its wrapper; gradients read the wrapper's recorded ids")
     else:
         ctx.violation("C10-e", mu.relpath, "add_mlcl_constraint", "_batchify decoration", "the decorated _batchify is not installed on the model or its "
